@@ -50,11 +50,13 @@ def _elementwise(en, a, b, f, name):
       if z3.is_int_value(ln):
         return ln.as_long() == 1
       return not en._sat(ln != 1)
-    if one(b) and not one(a):              # numpy broadcasting of a length-1 axis
-      return _elementwise(en, a, b.get(0), f, name)
-    if one(a) and not one(b):
-      return _elementwise(en, a.get(0), b, f, name)
-    _same_length(en, a, b)
+    same = z3.simplify(E.to_z3(a.length) - E.to_z3(b.length)).eq(z3.IntVal(0))        # syntactically equal lengths: the common case, no solver query
+    if not same:
+      if one(b) and not one(a):              # numpy broadcasting of a length-1 axis
+        return _elementwise(en, a, b.get(0), f, name)
+      if one(a) and not one(b):
+        return _elementwise(en, a.get(0), b, f, name)
+      _same_length(en, a, b)
     ga, gb = a.get, b.get
     return E.SymSeq(a.length, lambda i: f(ga(i), gb(i)), None, f'({a.name}{name}{b.name})')
   if _is_seq(a):
@@ -101,7 +103,18 @@ def seq_binop(en, a, b, opname):
     k = z3.Int(en.fresh_name('j'))
     d = den.get(k) if _is_seq(den) else E.to_z3(den)
     rng = z3.And(k >= 0, k < E.to_z3(den.length)) if _is_seq(den) else z3.BoolVal(True)
-    if en._sat(z3.And(rng, E._real(_num(d)) == 0)):
+    if getattr(en, 'allow_nonfinite', False):
+      # numpy semantics requested: decide quickly whether a zero denominator is possible at all; if that is not settled at once the
+      # division is guarded (cheap) instead of spending the solver budget here -- the obligations decide the guard later
+      en.solver.push()
+      en.solver.set('timeout', 3000)
+      en.solver.add(z3.And(rng, E._real(_num(d)) == 0))
+      possible = en.solver.check() != z3.unsat
+      en.solver.pop()
+      en.solver.set('timeout', 5000)
+    else:
+      possible = en._sat(z3.And(rng, E._real(_num(d)) == 0))
+    if possible:
       if not getattr(en, 'allow_nonfinite', False):
         raise E.PathRaise('NonFinite')
       # numpy semantics under np.errstate: x / 0 is inf/nan, not an exception.  The entry becomes an opaque non-finite marker
